@@ -58,6 +58,13 @@ func VH_C10_flusher() {
 	vAssume(vAnd(threshold >= 1, threshold <= 5))
 	vAssert("C10.create", db.Create(&vObj{}, vhAsyncSchema(threshold, timeout)) == nil)
 	var rows []vhRow
+	// a process that finds the collection on disk and writes straight away,
+	// without calling Create: the persisted settings (async) apply, and the
+	// first call that names the collection is the write itself
+	if vChoice("fresh_handle", 2) == 1 {
+		vAssert("C10.flusher.close_empty", db.Close() == nil)
+		db = Open(root)
+	}
 	// the collection may have been idle for whole timeout periods before the
 	// first write arrives: the flusher must still be there afterwards
 	period := int((timeout+99*time.Millisecond)/(100*time.Millisecond)) + 1
